@@ -17,8 +17,8 @@ RULE = ("model: one TLC behaviour per (code length x fill pattern x (salt, slot 
         "(event or step kind, code length, sub-case tag) triples whose observation was compared with a value computed by "
         "the TLA+ specification (code length 0 and empty slot sets are counted, they are boundary cases of the property)")
 
-PROPERTIES_WIP = ['C15']
-MANIFEST_WIP = {
+PROPERTIES = ['C15']
+MANIFEST = {
     'C15': dict(category='model_checking',
                 technique='TLA+ spec Contract (code root = RFC 6962 root over 16 KiB leaves with 8-byte zero padding of the last leaf, '
                           'state root = compact sparse Merkle root over SHA-256(key), contract id / predicate owner / blob id hashes, '
@@ -137,8 +137,12 @@ def run(pid, tier):
                 if not any(isinstance(s, dict) and s.get("ev") == e["ev"] for s in chk.samples):
                     chk.sample(tc._short(e, 500))
         # ---------------- binding self-test ----------------
-        tc.selftest_corrupt(chk, "contract", SPEC_TR, tr, tc.corrupt_hex_field(["root", "root_obj", "root_perm", "blob", "id", "data", "meta_id"]),
-                            max_events=120)
+        # (only meaningful on a trace the specification accepts: a segment that is already rejected at an
+        #  earlier event cannot show that the corrupted observation is the one that gets noticed)
+        if not chk.violations and not chk.known_hits:
+            tc.selftest_corrupt(chk, "contract", SPEC_TR, tr,
+                                tc.corrupt_hex_field(["root", "root_obj", "root_perm", "blob", "id", "data", "meta_id"]),
+                                max_events=120)
         chk.set("evaluations", nev + summ[0]["summary"]["compared"])
         chk.set("distinct_nontrivial", len(_trace_keys(events)) + len(rkeys))
         chk.set("code_lengths_traced", len({e.get("len") for e in events if e.get("ev") == "Seg"}))
